@@ -97,6 +97,22 @@ v('C07', 'fire', KA, 'cho_solve((L, True), HP', 'cho_solve((L, False), HP')
 v('C07', 'fire', KA, 'S = HP @ H.T + R', 'S = HP @ H.T')
 v('C07 C19', 'fire', KA, 'K = cho_solve((L, True), HP, overwrite_b=True).T', 'K = cho_solve((L, True), P, overwrite_b=True).T')
 v('C07', 'silent', KA, 'U = np.eye(len(x)) - K.dot(H)', 'U = np.identity(len(x)) - K @ H')
+_KOLD = """    L = cholesky(S, lower=True)
+    K = cho_solve((L, True), HP, overwrite_b=True).T
+    U = np.eye(len(x)) - K.dot(H)
+
+    return (x + K @ (z - H @ x), U.dot(P).dot(U.T) + K.dot(R).dot(K.T),
+            solve_triangular(L, e, lower=True))"""
+_KNEW = """    L = cholesky(S)
+    K = cho_solve((L, False), HP, overwrite_b=True).T
+    U = np.eye(len(x)) - K.dot(H)
+
+    return (x + K @ (z - H @ x), U.dot(P).dot(U.T) + K.dot(R).dot(K.T),
+            %s)"""
+v('C07', 'fire', KA, _KOLD, _KNEW % 'solve_triangular(L, e)', 'seeded C07 round 2 (in kind): consistent upper factor, innovation whitened by U instead of U^T')
+v('C07', 'silent', KA, _KOLD, _KNEW % "solve_triangular(L, e, trans='T')", 'upper factor used consistently: L^-1 = U^-T')
+v('C07', 'silent', KA, _KOLD, _KNEW % 'solve_triangular(L.T, e, lower=True)', 'upper factor transposed explicitly')
+v('C07', 'fire', KA, _KOLD, _KNEW % 'solve_triangular(L.T, e)', 'transposed upper factor read through its (empty) upper triangle')
 v('C08', 'fire', KA, 'H[n:, n:] = -F.T', 'H[n:, n:] = -F')
 v('C08', 'fire', KA, 'H[:n, n:] = Q', 'H[n:, :n] = Q')
 v('C08', 'fire', KA, 'H[:n, n:] @ H[:n, :n].T', 'H[:n, n:] @ H[:n, :n]')
